@@ -305,6 +305,8 @@ struct InputReader {
     /// `std::str::from_utf8`. Note that bash's `-n` counts bytes, not Unicode
     /// codepoints, so the fix needs to preserve that behavior.
     buffer: [u8; 1],
+    /// A byte read while completing a multi-byte character that turned out not to belong to it.
+    pending: Option<u8>,
     /// Terminal mode guard - kept alive for RAII cleanup on drop.
     /// The guard restores original terminal settings when dropped, even though
     /// we don't access the field directly after construction.
@@ -339,6 +341,7 @@ impl InputReader {
             input,
             deadline: timeout.and_then(|t| Instant::now().checked_add(t)),
             buffer: [0; 1],
+            pending: None,
             _term_mode: term_mode,
         }
     }
@@ -366,12 +369,40 @@ impl InputReader {
             }
         }
 
-        let n = self.input.read(&mut self.buffer)?;
-        if n == 0 {
-            return Ok(InputEvent::Eof);
-        }
+        let first = if let Some(b) = self.pending.take() {
+            b
+        } else {
+            let n = self.input.read(&mut self.buffer)?;
+            if n == 0 {
+                return Ok(InputEvent::Eof);
+            }
+            self.buffer[0]
+        };
 
-        let ch = self.buffer[0] as char;
+        // Decode UTF-8: a lead byte announces how many continuation bytes follow. Anything
+        // that does not form a valid sequence is passed through byte by byte.
+        let continuation_count = match first {
+            0xC2..=0xDF => 1,
+            0xE0..=0xEF => 2,
+            0xF0..=0xF4 => 3,
+            _ => 0,
+        };
+        let mut bytes = vec![first];
+        for _ in 0..continuation_count {
+            let n = self.input.read(&mut self.buffer)?;
+            if n == 0 {
+                break;
+            }
+            if !(0x80..=0xBF).contains(&self.buffer[0]) {
+                self.pending = Some(self.buffer[0]);
+                break;
+            }
+            bytes.push(self.buffer[0]);
+        }
+        let ch = match std::str::from_utf8(&bytes).ok().and_then(|s| s.chars().next()) {
+            Some(c) if bytes.len() == continuation_count + 1 => c,
+            _ => first as char,
+        };
 
         // Map control characters to events.
         Ok(match ch {
@@ -465,7 +496,7 @@ fn read_line_with_reader(
 
                         // Check character limit (based on output length).
                         if let Some(limit) = config.char_limit
-                            && line.len() >= limit
+                            && line.chars().count() >= limit
                         {
                             return Ok(ReadResult::Line(line));
                         }
@@ -494,7 +525,7 @@ fn read_line_with_reader(
 
                 // Check character limit (based on output length).
                 if let Some(limit) = config.char_limit
-                    && line.len() >= limit
+                    && line.chars().count() >= limit
                 {
                     return Ok(ReadResult::Line(line));
                 }
